@@ -20,6 +20,8 @@ STUBS = r'''
 #[verifier::external_body] pub struct UdpSocket { _p: () }
 #[verifier::external_body] pub struct AnyhowError { _p: () }
 #[verifier::external_body] pub struct IoError { _p: () }
+// anyhow's blanket `From<E: std::error::Error>`: lets `?` on an io::Result inside an anyhow::Result function type-check
+impl From<IoError> for AnyhowError { #[verifier::external_body] fn from(e: IoError) -> AnyhowError { unimplemented!() } }
 #[verifier::external_body] pub struct InstantFwd { _p: () }
 #[verifier::external_body] pub struct BatchUdpSocket { _p: () }
 #[verifier::external_body] pub struct ConnIo { _p: () }
@@ -204,7 +206,7 @@ def add_events(u):
     u.add(EV_SPEC)
     SA = '*srtla_ack as i32'
     u.add(u.fn(PH, 'process_connection_events', sub='events', ret='r', erase_async=True, props=('C09',),
-               post_rewrite=[('-> Result<()>', '-> Result<(), AnyhowError>', 1), ('srtla_core::utils::now_ms()', 'now_ms()', 1),
+               post_rewrite=[('-> Result<()>', '-> Result<(), AnyhowError>', 1), 
                              ('attribute_nak(connections, seq_tracker, *nak, current_time_ms);', 'let nak_res = attribute_nak(connections, seq_tracker, *nak, current_time_ms);', 1),
                              # C09 at EVERY early exit: nothing that had to be forwarded is dropped (the arrival link may have vanished: idx out of range)
                              (re.compile(r'return Ok\(\(\)\);'), '''{ proof {
